@@ -90,3 +90,25 @@ package metrics
 //@   ensures [then-forgotten] old(counter(mc, pid, metricName)) >= MaxAlertThreshold ==> err == nil && counter(mc, pid, metricName) == 0 && !haskey(mc.metrics.byName[metricName], pid)
 //@   ensures [store-kept-until-forgotten] old(counter(mc, pid, metricName)) < MaxAlertThreshold ==> mc.metrics.byName == old(mc.metrics.byName)
 //@   modifies heap(Checker), heap(Store)
+
+// invariant of the store (established by Store.Add, which files a metric under its own name and peer)
+//@ spec func storeInv(s *Store) bool = forall n string, p peer.ID :: haskey(s.byName, n) && haskey(s.byName[n], p) && winLatest[s.byName[n][p]] != nil ==> winLatest[s.byName[n][p]].Peer == p && winLatest[s.byName[n][p]].Name == n
+
+// sort.Stable on an api.MetricSlice permutes the slice in place; only order-insensitive facts are stated below
+//@ extern sort.Stable(data)
+//@   modifies nothing
+
+// "at most one metric per peer - the most recently received - and only if it is valid, unexpired"
+//@ func (mtrs *Store) LatestValid
+//@   property C09
+//@   requires storeInv(mtrs)
+//@   ensures [latest-of-some-peer] forall i int :: 0 <= i && i < len(res) ==> res[i] != nil && haskey(mtrs.byName, name) && haskey(mtrs.byName[name], res[i].Peer) && res[i] == winLatest[mtrs.byName[name][res[i].Peer]]
+//@   ensures [valid-unexpired] forall i int :: 0 <= i && i < len(res) ==> res[i].Valid && !expiredAt(res[i], old(now))
+//@   ensures [one-per-peer] forall i int, j int :: 0 <= i && i < j && j < len(res) ==> res[i].Peer != res[j].Peer
+//@   ensures [fresh-ones-included] forall p peer.ID :: haskey(mtrs.byName, name) && haskey(mtrs.byName[name], p) && winLatest[mtrs.byName[name][p]] != nil && winLatest[mtrs.byName[name][p]].Valid && !expiredAt(winLatest[mtrs.byName[name][p]], now) ==> in(winLatest[mtrs.byName[name][p]], elems(res))
+//@   loop 1 (range byPeer)
+//@     invariant !isnil(metrics)
+//@     invariant forall i int :: 0 <= i && i < len(metrics) ==> metrics[i] != nil && in(metrics[i].Peer, seen1) && metrics[i] == winLatest[byPeer[metrics[i].Peer]] && metrics[i].Valid && !expiredAt(metrics[i], old(now))
+//@     invariant forall i int, j int :: 0 <= i && i < j && j < len(metrics) ==> metrics[i].Peer != metrics[j].Peer
+//@     invariant forall p peer.ID :: in(p, seen1) && winLatest[byPeer[p]] != nil && winLatest[byPeer[p]].Valid && !expiredAt(winLatest[byPeer[p]], now) ==> in(winLatest[byPeer[p]], elems(metrics))
+//@   modifies nothing
